@@ -611,6 +611,16 @@ impl Tracer {
                 }
                 Some(StopReason::SignalStop(_, signal)) => {
                     if QUIET_SIGNALS.contains(&signal) {
+                        // The signal is injected right here, with the step: take back the
+                        // queue entry `apply_new_status` has just made for it, otherwise the
+                        // next resume injects the same signal a second time.
+                        if let Some(pos) = self
+                            .inject_signal_queue
+                            .iter()
+                            .rposition(|(p, s)| *p == pid && *s == signal)
+                        {
+                            self.inject_signal_queue.remove(pos);
+                        }
                         self.tracee_ctl.tracee_ensure(pid).step(Some(signal))?;
                         continue;
                     }
